@@ -39,15 +39,26 @@ func ownUpstreams(shard, count int) (own, other []string) {
 func genScript(r *rand.Rand, n int) []string {
 	s := make([]string, n)
 	mode := r.Intn(10)
+	start, length := 0, 0
+	kind := "conflict"
+	if mode <= 1 && n > 0 {
+		// a burst of one kind: reaches the end of the retry loops (5 steps: 5 deletes, or 5 updates + 4 gets)
+		start, length = r.Intn(n), 5+r.Intn(8)
+		if r.Intn(4) == 0 {
+			kind = rig.Pick(r, []string{"notFound", "alreadyExists", "transient"})
+		}
+	}
 	for i := range s {
 		s[i] = "ok"
 		switch {
-		case mode == 0: // fault free
-		case mode == 1: // a burst of one kind (reaches the end of the retry loops)
-			if i >= 2 && i < 2+3+r.Intn(6) {
-				s[i] = []string{"conflict", "notFound", "alreadyExists"}[n%3]
+		case mode <= 1:
+			if i >= start && i < start+length {
+				s[i] = kind
+			} else if r.Intn(12) == 0 {
+				s[i] = rig.Pick(r, faultKinds)
 			}
-		case mode <= 3: // dense
+		case mode == 2: // fault free
+		case mode <= 4: // dense
 			if r.Intn(2) == 0 {
 				s[i] = rig.Pick(r, faultKinds)
 			}
@@ -302,7 +313,7 @@ func evaluate(c *rig.Ctx, cases []Case) {
 var unexpected atomic.Int32
 
 func generate(c *rig.Ctx) {
-	n := c.Budget(1200, 30000)
+	n := c.Budget(2500, 30000)
 	cases := make([]Case, 0, n)
 	for i := 0; i < n; i++ {
 		max := 12
@@ -321,10 +332,12 @@ func generate(c *rig.Ctx) {
 // exhaustive (thorough tier): for random operation lists of at most 6 operations: the fault-free run, then EVERY
 // single-fault position x EVERY fault kind, each of them crashed at EVERY API call.
 func exhaustive(c *rig.Ctx) {
-	lists := c.Budget(0, 250)
+	lists := c.Budget(0, 1200)
 	for i := 0; i < lists && unexpected.Load() < 5; i++ {
 		base := genCase(c.Rng, 6)
-		base.Wf = true
+		for !base.Wf {
+			base = genCase(c.Rng, 6)
+		}
 		base.Script = nil
 		base.CrashAt = -1
 		_, impl := evalSeq(c, base)
